@@ -63,6 +63,8 @@ def stress_model():
         '<inputData name="a" id="i_a"><variable name="a" typeRef="number"/></inputData>',
         '<inputData name="s" id="i_s"><variable name="s" typeRef="string"/></inputData>',
         '<inputData name="d" id="i_d"><variable name="d" typeRef="date"/></inputData>',
+        '<inputData name="p" id="i_p"><variable name="p" typeRef="string"/></inputData>',
+        '<inputData name="q" id="i_q"><variable name="q" typeRef="string"/></inputData>',
         '<businessKnowledgeModel name="fib" id="b_fib"><variable name="fib"/><encapsulatedLogic><formalParameter name="n" typeRef="number"/>'
         '<literalExpression><text>%s</text></literalExpression></encapsulatedLogic></businessKnowledgeModel>' % esc('if n < 2 then n else fib(n - 1) + fib(n - 2)'),
         lit('num', 'decimal(sum(for i in 1..15 return (a + i) ** 2 / 7) + sqrt(abs(a) + 1) + exp(1) * log(abs(a) + 2), 20)', inputs=['a']),
@@ -75,6 +77,10 @@ def stress_model():
         # rewrites ctx->round while it works; next to inexact quotients whose last digit shows the rounding mode in force
         lit('trn', '[decimal(a / 7, 2.5), decimal(a + 0.25, 1.5), string(time(10, 20, 30.123456)), string(time(23, 59, 59.999999999)), '
                    'sum(for i in 1..10 return decimal((a + i) / 7, 2.5 + i / 3)), 2 / 3, 1 / 7, a / 9, sum(for i in 1..10 return (a + i) / (i + 2))]', inputs=['a']),
+        # built-ins whose arguments come from the input data: regular expressions (pattern p), temporal and numeric texts (q);
+        # the storm phase calls this with thousands of distinct argument values (anything cached per argument value shows there)
+        lit('stm', '[matches(s, p), replace(s, p, "#"), split(s, p), replace(s, p, "$0$0", "i"), matches(p, "^[a-z0-9]+"), string(date(q)), '
+                   'string(date(q) < date("2021-06-15")), string length(p), upper case(p), contains(s, substring(p, 1, 2))]', inputs=['s', 'p', 'q']),
         # prioritised tables with 2 and 3 output clauses; the order of the matching rules is decided by a clause other than the first
         multi_table('pri', 'PRIORITY', [('o1', '"A", "B"'), ('o2', '"x", "y", "z"')],
                     [('>= 0', ['"B"', '"x"']), ('>= 0', ['"A"', '"z"']), ('>= 5', ['"A"', '"y"']), ('>= 10', ['"A"', '"x"']), ('< 0', ['"B"', '"z"']), ('< 1', ['"B"', '"y"'])]),
@@ -109,6 +115,54 @@ def gen_calls(rng, n):
     return calls
 
 
+def storm_calls(rng, n):
+    """n calls of `stm`, every one with a pattern, a subject and a date text of its own"""
+    calls = []
+    heads = ['ab', 'x', 'qu', 'zz9', 'k', 'alpha', 'be', 'g']
+    for i in range(n):
+        h = rng.choice(heads)
+        pat = '%s%d%s' % (h, i, rng.choice(['[0-9]*', '[a-c]+', '(x|y)?', '.', 'z{0,2}', '[^q]', '\\\\d?', '']))
+        subj = '%s%s%d%sx%d' % (rng.choice(['', 'pre', 'ab']), h if i % 5 else 'no', i, rng.choice(['', '7', 'abc', 'zz']), i % 97)
+        q = '%04d-%02d-%02d' % (1900 + i % 300, 1 + i % 12, 1 + i % 28)
+        calls.append(['stm', '{s: "%s", p: "%s", q: "%s"}' % (subj, pat, q)])
+    return calls
+
+
+def storm_phase(ctx, exe, xml, bad_sites, runs_out):
+    """Built-ins hammered from all threads with thousands of DISTINCT argument values taken from the input data (2500 distinct
+    regular expressions, subjects and date texts per run).  One run always; more when the site inventory shows a lock or a mutable
+    static outside the build functions (a per-argument cache behind it only misbehaves when many distinct values circulate)."""
+    reps = 1 + (ctx.pick(4, 20) if bad_sites else 0)
+    for k in range(reps):
+        import random
+        calls = storm_calls(random.Random(ctx.seed * 313 + k), 2500)     # reproducible from the seed written into the replay file
+        threads = 16 if k % 2 == 0 else 6
+        res, wall = run_stress(ctx, exe, xml, calls, threads, ctx.pick(700, 3000), ctx.seed * 313 + k, timeout_s=ctx.pick(60, 180), trials=ctx.pick(2, 4))
+        ctx.evaluations += 1
+        case = {'threads': threads, 'per_thread': ctx.pick(700, 3000), 'trials': ctx.pick(2, 4), 'seed': ctx.seed * 313 + k, 'calls': calls[:400], 'storm': 2500,
+                'note': 'the run used 2500 generated calls (storm_calls); the first 400 are listed'}
+        if 'inconclusive' in res:
+            ctx.notes.append('storm run inconclusive: ' + res['inconclusive'])
+            return
+        if 'err' in res or 'crash' in res:
+            ctx.violation('the storm run could not be performed or the process died: %s' % json.dumps(res)[:300], case, impl=res)
+            return
+        ctx.corr_checked += res.get('calls', 0)
+        runs_out.append({'storm': True, 'threads': threads, 'calls': res.get('calls', 0), 'wall_s': round(wall, 2), 'deadlock': res.get('deadlock'),
+                         'mismatches': len(res.get('mismatches', []))})
+        if res.get('deadlock'):
+            ctx.violation('%d threads calling built-ins with distinct arguments made no progress for the watchdog window' % threads, case, impl=res)
+            return
+        if res.get('mismatches') or not res.get('final_ok'):
+            m = (res.get('mismatches') or res.get('final_mismatches') or [{}])[0]
+            ctx.violation('with 2500 distinct patterns / subjects / dates in circulation among %d threads, %s with input %s returned %s, the same call made alone returns %s'
+                          % (threads, m.get('invocable'), m.get('input'), str(m.get('got'))[:260], str(m.get('sequential'))[:260]),
+                          dict(case, first_mismatch=m), impl=(res.get('mismatches') or res.get('final_mismatches'))[:3])
+            return
+        if res.get('distinct_results', 0) >= 2000:
+            ctx.nontrivial.add(('storm', k))
+
+
 def regenerate_sites(ctx):
     import syncsites2coq
     sites, locks = syncsites2coq.main()
@@ -131,9 +185,9 @@ def run_stress(ctx, exe, xml, calls, threads, per_thread, seed, timeout_s, trial
     req = {'xml': xml, 'calls': calls, 'threads': threads, 'per_thread': per_thread, 'seed': seed, 'timeout_s': timeout_s, 'trials': trials}
     t0 = time.time()
     try:
-        p = subprocess.run([exe, 'threads'], input=json.dumps(req) + '\n', stdout=subprocess.PIPE, stderr=subprocess.PIPE, text=True, timeout=timeout_s + 60)
+        p = subprocess.run([exe, 'threads'], input=json.dumps(req) + '\n', stdout=subprocess.PIPE, stderr=subprocess.PIPE, text=True, timeout=max(900, 10 * timeout_s))
     except subprocess.TimeoutExpired:
-        return {'deadlock': True, 'calls': 0, 'mismatches': [], 'note': 'the harness process itself did not return'}, time.time() - t0
+        return {'inconclusive': 'the harness process did not return within %d s' % max(900, 10 * timeout_s), 'calls': 0, 'mismatches': []}, time.time() - t0
     lines = [l for l in p.stdout.split('\n') if l.strip()]
     if not lines:
         return {'crash': 'exit status %s: %s' % (p.returncode, p.stderr[-300:])}, time.time() - t0
@@ -172,11 +226,11 @@ def directed_search(ctx, exe, xml, found):
     ctx.cov['model_stuck_schedule'] = {'solo_or_same_path': str(solo)[:300], 'against_a_writer_call': [str(r)[:300] for r in res[1:]]}
     if getattr(solo, 'name', '') == 'Some' and set(solo.args[0]) == {0}:
         # witness 1: one thread re-enters a lock it holds for writing
-        r, wall = run_stress(ctx, exe, xml, NESTED, 1, 5, ctx.seed, timeout_s=8)
+        r, wall = run_stress(ctx, exe, xml, NESTED, 1, 5, ctx.seed, timeout_s=15)
         ctx.evaluations += 1
         if r.get('deadlock'):
             h = r.get('hanging_call', {})
-            ctx.violation('a single thread evaluating %s with input %s never returns (watchdog 8 s): the evaluation path takes a write lock (%s) and acquires the same lock '
+            ctx.violation('a single thread evaluating %s with input %s never returns (no progress for 15 s): the evaluation path takes a write lock (%s) and acquires the same lock '
                           'again in the nested evaluation; the locking model is stuck after the schedule %s' % (h.get('invocable'), h.get('input'), '; '.join(writes)[:300], solo.args[0]),
                           {'threads': 1, 'per_thread': 5, 'seed': ctx.seed, 'calls': NESTED, 'model_schedule': solo.args[0], 'sites': writes}, impl=r)
         return
@@ -230,6 +284,9 @@ def run(ctx):
         res, wall = run_stress(ctx, exe, xml, calls, threads, per_thread, seed, timeout_s=ctx.pick(40, 120), trials=trials)
         ctx.evaluations += 1
         case = {'threads': threads, 'per_thread': per_thread, 'trials': trials, 'seed': seed, 'calls': calls}
+        if 'inconclusive' in res:
+            ctx.notes.append('stress run inconclusive: ' + res['inconclusive'])
+            break
         if 'err' in res or 'crash' in res:
             ctx.violation('the stress run could not be performed or the process died: %s' % json.dumps(res)[:300], case, impl=res)
             break
@@ -237,7 +294,7 @@ def run(ctx):
         ctx.corr_checked += res.get('calls', 0)
         runs.append({'threads': threads, 'calls': res.get('calls', 0), 'wall_s': round(wall, 2), 'deadlock': res.get('deadlock'), 'mismatches': len(res.get('mismatches', []))})
         if res.get('deadlock'):
-            ctx.violation('%d threads sharing one evaluator did not finish within the watchdog limit (%d of %d threads finished, %d calls done): deadlock'
+            ctx.violation('%d threads sharing one evaluator made no progress for the watchdog window (%d of %d threads finished, %d calls done): deadlock'
                           % (threads, res.get('finished_threads', 0), threads, res.get('calls', 0)), case, impl=res)
             break
         if res.get('mismatches'):
@@ -259,12 +316,14 @@ def run(ctx):
         if len(ctx.samples) < 3:
             ctx.sample({'threads': threads, 'per_thread': per_thread, 'seed': seed, 'calls_made': res.get('calls'), 'distinct_results': res.get('distinct_results'),
                         'example_call': calls[0]})
+    if not ctx.violations:
+        storm_phase(ctx, exe, xml, bad_sites, runs)
     return ctx.finish(
         rule='stress runs of one Arc<ModelEvaluator> (numeric: for/sum/power/sqrt/exp/ln; temporal: date and duration arithmetic; regular expressions: replace/'
              'matches/split; a COLLECT SUM decision table; decision -> required decisions -> business knowledge model (recursive) and a decision service) shared by '
              '2, 3, 4, 8, 16 threads; per run 60 generated (invocable, input) calls and 14 trials, each on a FRESH evaluator released from a barrier (all threads make the same call first: cold start), '
              'call order / yields / barrier period from the seed; every result compared with the result of a reference evaluator used by one thread only; after each trial every call is '
-             'repeated alone on the raced evaluator; non-trivial = run with >= 20 distinct results',
+             'repeated alone on the raced evaluator; plus a storm phase: 16 threads calling regex / date built-ins with 2500 distinct patterns, subjects and date texts from the input data; non-trivial = run with >= 20 (storm: >= 2000) distinct results',
         extra_cov={'exhaustive': False, 'stress_runs': runs, 'total_concurrent_calls': total_calls},
         assumptions=['the schedules of the real program are explored by repeated randomised runs, not enumerated (level: partial)',
                      'std::sync::RwLock is modelled in its strictest form (a waiting writer blocks new readers)'],
@@ -282,6 +341,9 @@ def replay(ctx, path):
         return 1
     exe = ctx.build_harness()
     worst = None
+    if case.get('storm'):
+        import random
+        case['calls'] = storm_calls(random.Random(case['seed']), case['storm'])
     for attempt in range(5):
         res, wall = run_stress(ctx, exe, stress_model(), case['calls'], case['threads'], case['per_thread'], case['seed'] + attempt, 60, trials=case.get('trials', 1))
         print('attempt %d: calls %s deadlock %s mismatches %d final_ok %s (%.1fs)' % (attempt, res.get('calls'), res.get('deadlock'), len(res.get('mismatches', [])), res.get('final_ok'), wall))
